@@ -196,6 +196,15 @@ pub fn run(ctx: &Ctx) -> i32 {
             }
         });
     }
+    // (c) every pattern string of length <= 6 over a small alphabet rich in quotes: tokenizer / quoting depth
+    let sigma = ["y", "M", "H", "'", "-", "é", "d"];
+    let npat = crate::props::c14::count_strings(7, 6);
+    let v3 = [vals[0], vals[8], vals[20]];
+    rep.sweep("quoting: every pattern of length <= 6 over {y M H ' - é d} x 3 values x {Date, Time, DateTime}", npat * 9, "patterns the documentation does not determine (unbalanced quotes, three consecutive apostrophes) are skipped by the reference", |i, acc| {
+        let pat = crate::props::c14::nth_string(&sigma, 6, i / 9);
+        let (d, n, o) = v3[(i / 3 % 3) as usize];
+        case_format((i % 3) as u8, d, n, o, &pat, acc);
+    });
     rep.finish()
 }
 
